@@ -910,6 +910,25 @@ impl Version {
                     }
                 }
             }
+            // The test above assumes that a sibling inside the key range comes along.  When that
+            // sibling was itself turned down, everything sharing a boundary key with it must stay
+            // behind as well, transitively.
+            while level > 0 {
+                let before = to_add.len();
+                let candidates = to_add.clone();
+                to_add.retain(|sst| {
+                    !this_level.ssts.iter().any(|x| {
+                        !Arc::ptr_eq(x, sst)
+                            && x.first_key <= sst.last_key
+                            && sst.first_key <= x.last_key
+                            && !compaction.inputs.contains(&Setsum::from_digest(x.setsum))
+                            && !candidates.iter().any(|y| Arc::ptr_eq(y, x))
+                    })
+                });
+                if to_add.len() == before {
+                    break;
+                }
+            }
             if !to_add.is_empty() {
                 // SAFETY(rescrv): It's non-empty so min/max exist.
                 first_key = to_add
